@@ -234,6 +234,13 @@ def gen_case(rng, kind=None):
             "output_dtype": rng.choice(["float", "str"]), "X": encs(col), "y": y, "kind": kind,
             "order": encs(vals) if ftype == "ordinal" else None, "Xdev": None, "ydev": None,
             "index": rng.choice([None, None, "offset", "perm", "str"])}
+    # rarely used keyword arguments: custom sentinels, verbose printing of the crosstabs
+    r = rng.random()
+    if r < 0.3:
+        case["kwargs"] = rng.choice([{"str_nan": "MISSING"}, {"str_default": "RARE"},
+                                     {"str_nan": "MISSING", "str_default": "RARE"},
+                                     {"verbose": True, "pretty_print": False},
+                                     {"verbose": True, "pretty_print": False, "str_nan": "MISSING"}])
     # min_freq_mod: default, or exactly on / next to a frequency present in the data
     r = rng.random()
     ntot = len(col)
